@@ -25,8 +25,9 @@ if os.path.abspath(REPO) != '/repo':
     # a scratch tree is under test (evaluation of a seeded change): the translators regenerate coq/gen from it, so the
     # whole Coq tree of this run is a private copy - the shared one always corresponds to /repo
     COQ = os.path.join(VERIF, '.work', 'coq-alt-' + hashlib.sha1(os.path.abspath(REPO).encode()).hexdigest()[:10])
-    os.makedirs(os.path.dirname(COQ), exist_ok=True)
-    subprocess.run(['rsync', '-a', '--delete', os.path.join(VERIF, 'coq') + '/', COQ + '/'], check=True)
+    if os.environ.get('EMD_COQ_DIR') != COQ:      # child processes of a check inherit EMD_COQ_DIR and must not copy again
+        os.makedirs(os.path.dirname(COQ), exist_ok=True)
+        subprocess.run(['rsync', '-a', '--delete', os.path.join(VERIF, 'coq') + '/', COQ + '/'], check=True)
 os.environ['EMD_COQ_DIR'] = COQ
 PY = '/venv/bin/python'
 GUARD = 'EMD_VERIF_TRACE'
